@@ -31,6 +31,7 @@ type c07cfg struct {
 	// overlap: a request that never finishes is in flight, and the second command of the sequence is issued by another
 	// operator 300ms after the first one started (its drain, with twice the drain timeout, overlaps the first one's)
 	overlap bool
+	deep    bool // explored with <=2 deviations in the quick tier too
 }
 
 func (c c07cfg) String() string {
@@ -96,6 +97,12 @@ func c07Configs(tier string) []c07cfg {
 		if tier != "quick" {
 			cfgs = append(cfgs, c07cfg{seq: s, gap: 0, clients: sets[0]})
 			cfgs = append(cfgs, c07cfg{seq: s, gap: gap, clients: sets[1], rollout: true})
+		}
+	}
+	if tier == "quick" {
+		// commands issued back to back (no gap): a request released by one command meets the next one
+		for _, s := range []string{"PSp", "PSP", "PRS", "pSR"} {
+			cfgs = append(cfgs, c07cfg{seq: s, gap: 0, clients: sets[0], deep: true})
 		}
 	}
 	// two drains of the same targets overlapping
@@ -440,7 +447,7 @@ func checkC07(t *testing.T, job *Job, res *Result) {
 	var scs []*Scenario
 	for i, c := range c07Configs(tier) {
 		sc := c07Scenario(c)
-		if tier == "quick" && i%5 != 0 {
+		if tier == "quick" && i%5 != 0 && !c.deep {
 			sc.Bounds = &Bounds{D: 1, S: 1, Total: 1}
 		}
 		scs = append(scs, sc)
